@@ -62,7 +62,8 @@ class BaseSliver(ABC):
         self.node_id = None
         self.details = None
         self.node_map = None
-        self.stitch_node = False
+        # None (not set) reads as False; only an explicitly set flag is written to the model
+        self.stitch_node = None
         self.tags = None # list of strings, limited in length
         self.flags = None # various flags
         self.mf_data = None # opaque JSON object limited in length
@@ -181,7 +182,7 @@ class BaseSliver(ABC):
         self.stitch_node = stitch_node
 
     def get_stitch_node(self) -> bool:
-        return self.stitch_node
+        return self.stitch_node if self.stitch_node is not None else False
 
     def set_tags(self, tags: Tags) -> None:
         assert(tags is None or isinstance(tags, Tags))
